@@ -1,59 +1,125 @@
-"""Run Kani harness crates (path dependencies on /repo, rebuilt from the working tree)."""
+"""Run Kani harness crates (path dependencies on /repo, rebuilt from the working tree).
+
+One `cargo kani` invocation per crate (all selected harnesses, in parallel); the per-harness
+results are recovered from the per-thread output blocks.  Naming convention inside the crates:
+a harness whose name starts with `bounded_` is a BOUNDED stand-in (its bound is stated in the
+doc comment and in units.json); every other harness is loop-free over fully symbolic inputs,
+i.e. a complete proof for the stated type/shape.
+"""
 import os
 import re
-import shutil
 import subprocess
 import time
 
 ROOT = os.path.dirname(os.path.dirname(os.path.abspath(__file__)))
-REPO = os.environ.get("VERIF_REPO", "/repo")
 
 
-def run_crate(crate, harnesses):
-    """harnesses: list of dicts {crate, harness, kind: complete|bounded, bound, timeout, args}"""
-    cdir = os.path.join(ROOT, "kani", crate)
-    out = []
-    lock = os.path.join(REPO, "Cargo.lock")
-    env = dict(os.environ, CARGO_NET_OFFLINE="true", CARGO_TARGET_DIR=os.path.join(ROOT, "build", "kani-target", crate))
-    from concurrent.futures import ThreadPoolExecutor
-
-    def one(h):
-        t0 = time.time()
-        cmd = ["cargo", "kani", "--harness", h["harness"], "--exact"] + h.get("args", [])
-        res = {"crate": crate, "harness": h["harness"], "kind": h.get("kind", "complete"), "bound": h.get("bound"),
-               "cmd": "cd kani/%s && CARGO_NET_OFFLINE=true %s" % (crate, " ".join(cmd)), "checks": 0, "failed_checks": 0}
-        try:
-            p = subprocess.run(cmd, cwd=cdir, env=env, capture_output=True, text=True, timeout=h.get("timeout", 900))
-        except subprocess.TimeoutExpired:
-            res.update(status="infra", msg="timed out after %ds" % h.get("timeout", 900), wall_s=time.time() - t0)
-            return res
-        res["wall_s"] = round(time.time() - t0, 2)
-        o = p.stdout + p.stderr
-        m = re.search(r"\*\* (\d+) of (\d+) failed", o)
+def parse_output(o):
+    cur = {}
+    res = {}
+    lines = o.split("\n")
+    i = 0
+    while i < len(lines):
+        l = lines[i]
+        m = re.match(r"(?:Thread (\d+): )?Checking harness (\S+?)\.\.\.", l)
         if m:
-            res["failed_checks"], res["checks"] = int(m.group(1)), int(m.group(2))
-        if "VERIFICATION:- SUCCESSFUL" in o:
-            res["status"] = "ok"
-            if res["checks"] == 0:
-                res.update(status="infra", msg="zero checks")
-        elif "VERIFICATION:- FAILED" in o:
-            # unwinding assertion failures mean the bound is too small: undecided, not a violation
-            fails = re.findall(r"Failed Checks: (.*)", o)
-            if any("unwinding assertion" in f for f in fails) and all(("unwinding assertion" in f) for f in fails):
-                res.update(status="infra", msg="unwinding bound too small")
-            elif "CBMC failed" in o or "out of memory" in o.lower():
-                res.update(status="infra", msg="CBMC failed")
-            else:
-                res["status"] = "fail"
-                res["failed_desc"] = "; ".join(fails[:4])
-                res["output_tail"] = o[-3000:]
-        else:
-            res.update(status="infra", msg="kani did not finish (exit %d): %s" % (p.returncode, o[-1500:]))
-        return res
+            cur[m.group(1) or "0"] = m.group(2)
+            i += 1
+            continue
+        m = re.match(r"Thread (\d+): \s*$", l)
+        single = l.startswith("VERIFICATION RESULT:") and len(cur) == 1 and "0" in cur
+        if m or single:
+            th = m.group(1) if m else "0"
+            name = cur.get(th)
+            blk = []
+            j = i + (1 if m else 0)
+            while j < len(lines) and not lines[j].startswith("Verification Time"):
+                blk.append(lines[j])
+                j += 1
+            if j < len(lines):
+                blk.append(lines[j])
+            b = "\n".join(blk)
+            if name:
+                r = {"checks": 0, "failed_checks": 0, "block": b}
+                mm = re.search(r"\*\* (\d+) of (\d+) failed", b)
+                if mm:
+                    r["failed_checks"], r["checks"] = int(mm.group(1)), int(mm.group(2))
+                mt = re.search(r"Verification Time: ([0-9.]+)s", b)
+                r["time_s"] = float(mt.group(1)) if mt else 0.0
+                mc = re.search(r"\*\* (\d+) of (\d+) cover properties satisfied", b)
+                r["covers_satisfied"] = int(mc.group(1)) if mc else 0
+                if "VERIFICATION:- SUCCESSFUL" in b and "rejects" in name.split("::")[-1] and r["covers_satisfied"] > 0:
+                    # `*_rejects*` harnesses: the statement after the call must be unreachable (every invalid input panics)
+                    r["status"] = "fail"
+                    r["failed_desc"] = "an invalid input was accepted (REJECT_BYPASS cover satisfied)"
+                elif "VERIFICATION:- SUCCESSFUL" in b:
+                    r["status"] = "ok"
+                    if "panics as expected" in b:
+                        r["failed_checks"] = 0      # the expected panic is not an undischarged obligation
+                elif "VERIFICATION:- FAILED" in b:
+                    fails = re.findall(r"Failed Checks: (.*)", b)
+                    if fails and all("unwinding assertion" in f for f in fails):
+                        r["status"] = "infra"
+                        r["msg"] = "unwinding bound too small"
+                    else:
+                        r["status"] = "fail"
+                        r["failed_desc"] = "; ".join(f for f in fails if "unwinding assertion" not in f)[:600]
+                else:
+                    r["status"] = "infra"
+                    r["msg"] = "no verdict"
+                res[name] = r
+            i = j + 1
+            continue
+        i += 1
+    return res
 
-    # build once (first harness) then the rest in parallel
-    if harnesses:
-        out.append(one(harnesses[0]))
-        with ThreadPoolExecutor(max_workers=6) as ex:
-            out.extend(ex.map(one, harnesses[1:]))
+
+def run_crate(crate, specs):
+    """specs: list of dicts {crate, filter (harness substring or None), bounds: {regex: text}, timeout, jobs}; returns per-harness result dicts"""
+    cdir = os.path.join(ROOT, "kani", crate)
+    env = dict(os.environ, CARGO_NET_OFFLINE="true", CARGO_TARGET_DIR=os.path.join(ROOT, "build", "kani-target", crate))
+    out = []
+    for spec in specs:
+        t0 = time.time()
+        cmd = ["cargo", "kani", "-j", str(spec.get("jobs", 12)), "--output-format", "terse"] + spec.get("args", [])
+        for f in spec.get("filters", []):
+            cmd += ["--harness", f]
+        shown = "cd kani/%s && CARGO_NET_OFFLINE=true %s" % (crate, " ".join(cmd))
+        try:
+            p = subprocess.run(cmd, cwd=cdir, env=env, capture_output=True, text=True, timeout=spec.get("timeout", 1500))
+            o = p.stdout + "\n" + p.stderr
+        except subprocess.TimeoutExpired as e:
+            out.append({"crate": crate, "harness": "*", "kind": "complete", "status": "infra", "msg": "cargo kani timed out after %ds" % spec.get("timeout", 1500),
+                        "cmd": shown, "checks": 0, "failed_checks": 0, "wall_s": time.time() - t0})
+            continue
+        res = parse_output(o)
+        m = re.search(r"Complete - (\d+) successfully verified harnesses, (\d+) failures, (\d+) total", o)
+        if not res or not m or int(m.group(3)) != len(res):
+            out.append({"crate": crate, "harness": "*", "kind": "complete", "status": "infra", "cmd": shown, "checks": 0, "failed_checks": 0, "wall_s": time.time() - t0,
+                        "msg": "kani did not complete (%d results parsed): %s" % (len(res), o[-1500:])})
+            continue
+        if len(res) < spec.get("min_harnesses", 1):
+            out.append({"crate": crate, "harness": "*", "kind": "complete", "status": "infra", "cmd": shown, "checks": 0, "failed_checks": 0, "wall_s": time.time() - t0,
+                        "msg": "only %d harnesses ran, at least %d expected" % (len(res), spec["min_harnesses"])})
+            continue
+        for name, r in sorted(res.items()):
+            short = name.split("::")[-1]
+            kind = "bounded" if short.startswith("bounded_") else "complete"
+            bound = None
+            for rx, txt in spec.get("bounds", {}).items():
+                if re.search(rx, name):
+                    bound = txt
+            ent = {"crate": crate, "harness": name, "kind": kind, "bound": bound, "cmd": shown, "checks": r["checks"], "failed_checks": r["failed_checks"],
+                   "wall_s": r.get("time_s", 0.0), "status": r["status"], "msg": r.get("msg"), "failed_desc": r.get("failed_desc"), "output_tail": r["block"][-2500:]}
+            if r["status"] == "fail":
+                # counterexample from the verifier (concrete playback), attached to the replay file
+                try:
+                    pc = subprocess.run(["cargo", "kani", "--harness", name, "--exact", "-Z", "concrete-playback", "--concrete-playback=print", "--output-format", "terse"] + spec.get("args", []),
+                                        cwd=cdir, env=env, capture_output=True, text=True, timeout=spec.get("timeout", 1500))
+                    mo = re.search(r"Concrete playback unit test.*?```(.*?)```", pc.stdout + pc.stderr, re.S)
+                    if mo:
+                        ent["cex"] = mo.group(1).strip()[:6000]
+                except subprocess.TimeoutExpired:
+                    pass
+            out.append(ent)
     return out
